@@ -6,7 +6,8 @@ Pairs == ndJsonDeserialize("pairs.ndjson")
 
 VARIABLE l
 Init == l = 1
-Next == l <= Len(Pairs) /\ IsPrefixVal(Pairs[l].p, Pairs[l].f) /\ l' = l + 1
+Holds(x) == IF x.kind = "grows" THEN GrowsOK(x.p, x.f) ELSE IsPrefixVal(x.p, x.f)
+Next == l <= Len(Pairs) /\ Holds(Pairs[l]) /\ l' = l + 1
 Spec == Init /\ [][Next]_l
 AllAccepted == TLCGet("stats").diameter - 1 = Len(Pairs)
 =============================================================================
